@@ -76,6 +76,14 @@ pub fn run_plan<T: HCfg>(plan: &Value, detail: u8, emit: &mut dyn FnMut(&Value))
         .cloned()
         .unwrap_or_default();
     let mut forge_n = 0u64;
+    // forge only into sessions that are Running (their magic filter is armed for every endpoint)
+    let forge_after_sync = forge.get("after_sync").and_then(|v| v.as_bool()).unwrap_or(false);
+    // optional fixed set of (claimed) source addresses
+    let forge_from: Vec<usize> = forge
+        .get("from")
+        .and_then(|v| v.as_array())
+        .map(|a| a.iter().filter_map(|x| x.as_u64().map(|x| x as usize)).collect())
+        .unwrap_or_default();
     // C16: API misuse calls inserted at random points; each carries the documented result
     let p_misuse = pf(plan, "p_misuse", 0.0);
     let nplayers = pu(cfg, "players", 2) as usize;
@@ -281,8 +289,18 @@ pub fn run_plan<T: HCfg>(plan: &Value, detail: u8, emit: &mut dyn FnMut(&Value))
                 }
             }
             let mut steps: Vec<Value> = Vec::new();
-            if forge_rate > 0.0 && !forge_kinds.is_empty() && npeers > 1 && rng.gen::<f64>() < forge_rate {
-                let mut from = rng.gen_range(0..npeers);
+            let armed = !forge_after_sync
+                || match &w.peers[p].sess {
+                    crate::world::Sess::P2P(s) => s.current_state() == ggrs::SessionState::Running,
+                    crate::world::Sess::Spec(s) => s.current_state() == ggrs::SessionState::Running,
+                    crate::world::Sess::Sync(_) => false,
+                };
+            if forge_rate > 0.0 && !forge_kinds.is_empty() && npeers > 1 && armed && rng.gen::<f64>() < forge_rate {
+                let mut from = if forge_from.is_empty() {
+                    rng.gen_range(0..npeers)
+                } else {
+                    forge_from[rng.gen_range(0..forge_from.len())]
+                };
                 if from == p {
                     from = (from + 1) % npeers;
                 }
